@@ -68,3 +68,31 @@ Fixpoint peel (fuel : nat) (edges : list (string * string)) : list (string * str
   end.
 Definition acyclic (edges : list (string * string)) : bool :=
   match peel (S (length edges)) edges with [] => negb (existsb (fun e => String.eqb (fst e) (snd e)) edges) | _ => false end.
+
+(* ---- atomicity: which entry points must touch which field within one locked episode ---- *)
+Definition atomic_spec : list (string * string) := [
+  (* pool: copy, shuffle, re-validation, block, clear — one episode; admission: duplicate test to append — one episode *)
+  ("TransactionsPool.Validate", "TransactionsPool.transactions");
+  ("TransactionsPool.AddTransaction", "TransactionsPool.transactions");
+  ("TransactionsPool.Transactions", "TransactionsPool.transactions");
+  (* output registry: copy-modify-commit of both maps in one episode *)
+  ("UtxosRegistry.UpdateUtxos", "UtxosRegistry.utxosById");
+  ("UtxosRegistry.UpdateUtxos", "UtxosRegistry.utxosByAddress");
+  ("UtxosRegistry.Copy", "UtxosRegistry.utxosById");
+  ("UtxosRegistry.Copy", "UtxosRegistry.utxosByAddress");
+  ("UtxosRegistry.Clear", "UtxosRegistry.utxosById");
+  (* address registry *)
+  ("AddressesRegistry.Update", "AddressesRegistry.registeredAddresses");
+  ("AddressesRegistry.Update", "AddressesRegistry.removedAddresses");
+  ("AddressesRegistry.Copy", "AddressesRegistry.registeredAddresses");
+  ("AddressesRegistry.Copy", "AddressesRegistry.removedAddresses");
+  ("AddressesRegistry.Synchronize", "AddressesRegistry.removedAddresses");
+  (* chain: appending a block *)
+  ("Blockchain.AddBlock", "Blockchain.blocks")
+].
+
+Definition row_atomic (field_sections : list (string * string * nat * bool)) (r : string * string) : bool :=
+  match filter (fun e => String.eqb (fst (fst (fst e))) (fst r) && String.eqb (snd (fst (fst e))) (snd r)) field_sections with
+  | [(_, _, n, unlocked)] => Nat.eqb n 1 && negb unlocked
+  | _ => false
+  end.
